@@ -3,7 +3,8 @@
 //
 // stdin  : scripts (see vlib/c06.py), one op per line "<code> <a> <b>"
 // stdout : one log line per executed op with its observed result (and, when enabled, the scalar
-//          fields of the runtime's map header read through unsafe; layout = runtime map.go hmap)
+//
+//	fields of the runtime's map header read through unsafe; layout = runtime map.go hmap)
 //
 // No fmt / reflect / time.  One generic interpreter, instantiated per (key type, value type).
 package main
@@ -386,80 +387,87 @@ type tk[K comparable, V any] struct {
 	rdv func(V) int
 }
 
+// Every operation runs in its own call frame (execOp): llgo keeps the temporaries of a call that
+// returns a tuple alive until the enclosing function returns, so a long loop must not hold them.
 func exec[K comparable, V any](pm *map[K]V, ops []op, lo, hi int, t *tk[K, V]) {
-	for pc := lo; pc < hi; pc++ {
-		o := &ops[pc]
-		switch o.c {
-		case 'M':
-			if o.a == 0 {
-				*pm = make(map[K]V)
-			} else if o.a < 0 {
-				*pm = map[K]V{}
-			} else {
-				*pm = make(map[K]V, o.a)
-			}
-			wb('M')
-			whdr(*pm)
-			nl()
-		case 'Z':
-			*pm = nil
-			wb('Z')
-			whdr(*pm)
-			nl()
-		case 'I':
-			p := doIns(*pm, t.key(o.a), t.mkv(o.b))
-			wb('I')
-			wi(o.a)
-			wi(o.b)
-			wi(p)
-			whdr(*pm)
-			nl()
-		case 'D':
-			p := doDel(*pm, t.key(o.a))
-			wb('D')
-			wi(o.a)
-			wi(p)
-			whdr(*pm)
-			nl()
-		case 'G':
-			v, ok, p := doGet2(*pm, t.key(o.a))
-			wb('G')
-			wi(o.a)
-			wi(p)
-			wi(t.rdv(v))
-			if ok {
-				wi(1)
-			} else {
-				wi(0)
-			}
-			whdr(*pm)
-			nl()
-		case 'H':
-			v, p := doGet1(*pm, t.key(o.a))
-			wb('H')
-			wi(o.a)
-			wi(p)
-			wi(t.rdv(v))
-			whdr(*pm)
-			nl()
-		case 'L':
-			wb('L')
-			wi(len(*pm))
-			whdr(*pm)
-			nl()
-		case 'C':
-			p := doClear(*pm)
-			wb('C')
-			wi(p)
-			whdr(*pm)
-			nl()
-		case 'R':
-			doRange(pm, ops, pc, t)
-			pc = o.d
-		case 'P':
-			doPop(pm, t)
-		}
+	for pc := lo; pc < hi; {
+		pc = execOp(pm, ops, pc, t)
 	}
+}
+
+func execOp[K comparable, V any](pm *map[K]V, ops []op, pc int, t *tk[K, V]) int {
+	o := &ops[pc]
+	switch o.c {
+	case 'M':
+		if o.a == 0 {
+			*pm = make(map[K]V)
+		} else if o.a < 0 {
+			*pm = map[K]V{}
+		} else {
+			*pm = make(map[K]V, o.a)
+		}
+		wb('M')
+		whdr(*pm)
+		nl()
+	case 'Z':
+		*pm = nil
+		wb('Z')
+		whdr(*pm)
+		nl()
+	case 'I':
+		p := doIns(*pm, t.key(o.a), t.mkv(o.b))
+		wb('I')
+		wi(o.a)
+		wi(o.b)
+		wi(p)
+		whdr(*pm)
+		nl()
+	case 'D':
+		p := doDel(*pm, t.key(o.a))
+		wb('D')
+		wi(o.a)
+		wi(p)
+		whdr(*pm)
+		nl()
+	case 'G':
+		v, ok, p := doGet2(*pm, t.key(o.a))
+		wb('G')
+		wi(o.a)
+		wi(p)
+		wi(t.rdv(v))
+		if ok {
+			wi(1)
+		} else {
+			wi(0)
+		}
+		whdr(*pm)
+		nl()
+	case 'H':
+		v, p := doGet1(*pm, t.key(o.a))
+		wb('H')
+		wi(o.a)
+		wi(p)
+		wi(t.rdv(v))
+		whdr(*pm)
+		nl()
+	case 'L':
+		wb('L')
+		wi(len(*pm))
+		whdr(*pm)
+		nl()
+	case 'C':
+		p := doClear(*pm)
+		wb('C')
+		wi(p)
+		whdr(*pm)
+		nl()
+	case 'R':
+		doRange(pm, ops, pc, t)
+		return o.d + 1
+	case 'P':
+		doPop(pm, t)
+	}
+	return pc + 1
 }
 
 // segment to run after the j-th yield: ops between "@ j" and the next marker of the same loop
@@ -713,62 +721,72 @@ func readOp() (o op, ok bool) {
 	return o, true
 }
 
+var (
+	mOps   []op
+	mStack []int
+	mID    int
+	mKT    int
+	mVT    int
+)
+
+// one input line; false at EOF.  (Its own frame per line, see exec.)
+func step() bool {
+	o, ok := readOp()
+	if !ok {
+		return false
+	}
+	switch o.c {
+	case 'Q': // Q <useHdr> <eager>
+		useHdr = o.a != 0
+		eager = o.b != 0
+	case 'U': // U <kt> <n>: dump the key universe
+		universe(o.a, o.b)
+	case 'S': // S <id> <kt*3+vt>
+		mID, mKT, mVT = o.a, o.b/3, o.b%3
+		mOps = mOps[:0]
+		mStack = mStack[:0]
+	case 'X':
+		ws("S")
+		wi(mID)
+		nl()
+		flush()
+		iterID = 0
+		if !dispatch(mKT, mVT, mOps) {
+			ws("BAD\n")
+		}
+		ws("X")
+		wi(mID)
+		nl()
+		flush()
+	case 'R':
+		mStack = append(mStack, len(mOps), len(mOps))
+		mOps = append(mOps, o)
+	case '@':
+		n := len(mStack)
+		prev := mStack[n-1]
+		if mOps[prev].c == '@' {
+			mOps[prev].d = len(mOps)
+		}
+		mStack[n-1] = len(mOps)
+		mOps = append(mOps, o)
+	case 'E':
+		n := len(mStack)
+		prev := mStack[n-1]
+		if mOps[prev].c == '@' {
+			mOps[prev].d = len(mOps)
+		}
+		mOps[mStack[n-2]].d = len(mOps)
+		mStack = mStack[:n-2]
+		mOps = append(mOps, o)
+	default:
+		mOps = append(mOps, o)
+	}
+	return true
+}
+
 func main() {
 	rd = bufio.NewReaderSize(os.Stdin, 1<<16)
-	var ops []op
-	var stack []int
-	id, kt, vt := 0, 0, 0
-	for {
-		o, ok := readOp()
-		if !ok {
-			break
-		}
-		switch o.c {
-		case 'Q': // Q <useHdr> <eager>
-			useHdr = o.a != 0
-			eager = o.b != 0
-		case 'U': // U <kt> <n>: dump the key universe
-			universe(o.a, o.b)
-		case 'S': // S <id> <kt*3+vt>
-			id, kt, vt = o.a, o.b/3, o.b%3
-			ops = ops[:0]
-			stack = stack[:0]
-		case 'X':
-			ws("S")
-			wi(id)
-			nl()
-			flush()
-			iterID = 0
-			if !dispatch(kt, vt, ops) {
-				ws("BAD\n")
-			}
-			ws("X")
-			wi(id)
-			nl()
-			flush()
-		case 'R':
-			stack = append(stack, len(ops), len(ops))
-			ops = append(ops, o)
-		case '@':
-			n := len(stack)
-			prev := stack[n-1]
-			if ops[prev].c == '@' {
-				ops[prev].d = len(ops)
-			}
-			stack[n-1] = len(ops)
-			ops = append(ops, o)
-		case 'E':
-			n := len(stack)
-			prev := stack[n-1]
-			if ops[prev].c == '@' {
-				ops[prev].d = len(ops)
-			}
-			ops[stack[n-2]].d = len(ops)
-			stack = stack[:n-2]
-			ops = append(ops, o)
-		default:
-			ops = append(ops, o)
-		}
+	for step() {
 	}
 	flush()
 }
